@@ -82,12 +82,12 @@ def _slice_param(lo, hi):
 W.contract(
     LL + "__getitem__#slice",
     params=dict(self=LAZY, position=_slice_param("a", "b")), ghost=dict(a=INT, b=INT), result=SEQ(VAL), lets=LETS,
-    requires=[INV, "0 <= a", "0 <= b", f"b <= len({SRC})"],
-    ensures=[INV, f"result == {SRC}[a:b]", f"{K} == (max(k0, b) if a < b else k0)"],
+    requires=[INV, "0 <= a", "0 <= b"],
+    ensures=[INV, f"result == {SRC}[a:b]", f"{K} == (max(k0, min(b, len({SRC}))) if a < b else k0)"],
     ensures_names=["C13-inv", "C13-slice", "C14-pulls-only-needed"],
     modifies=MODS,
-    loops={1: dict(inv=[INV, f"ret == {SRC}[a:a + _k]", f"{K} == (max(k0, a + _k) if _k > 0 else k0)", "a + _k <= b or _k == 0"], types={"ret": SEQ(VAL)})},
-    note="ll[a:b] with 0 <= a, 0 <= b <= len: the items, and no item beyond b is pulled (the first-n-items case of C14)",
+    loops={1: dict(inv=[INV, f"ret == {SRC}[a:a + _k]", f"{K} == (max(k0, a + _k) if _k > 0 else k0)", "a + _k <= b or _k == 0", f"a + _k <= len({SRC}) or _k == 0"], types={"ret": SEQ(VAL)})},
+    note="ll[a:b] with 0 <= a, 0 <= b: the items of the list's own slice (it stops at the end of the list), and no item beyond b is pulled (the first-n-items case of C14)",
     props=["C13", "C14"],
 )
 
@@ -102,6 +102,17 @@ W.contract(
     loops={0: dict(inv=[INV, "i >= a", f"_yielded == {SRC}[a:i]", f"i <= len({SRC}) or len(_yielded) == 0", f"{K} <= max(k0, i)", "len(_yielded) == (i - a if i <= len(" + SRC + ") else 0)"])},
     note="ll[a:] stays lazy: when item j of the tail is yielded at most a+j+1 items have been pulled",
     props=["C13", "C14"],
+)
+
+W.contract(
+    LL + "__getitem__#from-the-end",
+    params=dict(self=LAZY, position=_slice_param("a", None)), ghost=dict(a=INT), result=SEQ(VAL), lets=LETS,
+    requires=[INV, "a < 0"],
+    ensures=[INV, f"result == {SRC}[a:]", f"{K} == len({SRC})"],
+    ensures_names=["C13-inv", "C13-slice-from-the-end", "C13-fully-generated"],
+    modifies=MODS,
+    note="ll[a:] with a < 0 counts from the end: the whole (finite) list is generated and sliced as a list",
+    props=["C13"],
 )
 
 W.contract(
